@@ -196,7 +196,7 @@ def characters(pwm, alphabet=['A', 'C', 'G', 'T'], force=False, allow_N=False):
 		raise ValueError("At least one position in the PWM has multiple " +
 			"letters with the same probability.")
 
-	alphabet = numpy.array(alphabet)
+	alphabet = numpy.array(alphabet, dtype=object)
 	if isinstance(pwm, torch.Tensor):
 		pwm = pwm.numpy(force=True)
 
